@@ -1,0 +1,10 @@
+//go:build verif
+// +build verif
+
+package gmtls
+
+// Hook for the verification harness (build tag "verif" only; property C20, harness/c20reneg.go).
+
+// VerifConfig returns the configuration a connection made by VerifEstablished runs with, so that the harness can
+// set options (e.g. Renegotiation) before using the connection.
+func (c *Conn) VerifConfig() *Config { return c.config }
